@@ -36,6 +36,13 @@ def run_case(ctx, rng, ci):
     pit = rng.random() < 0.4
     ds = gen.make_dataset(rng, n_inputs=rng.choice([1, 2, 2, 3]), clim=True, pit=pit, miss=rng.choice([0.0, 0.1, 0.25]),
                           max_t=5, max_l=4, max_s=4, vrange=rng.choice([(-10, 30), (1, 20)]), some_without_obs=rng.random() < 0.2)
+    if len(ds["inputs"]) >= 2 and all("obs" in i["has"] for i in ds["inputs"]) and rng.random() < 0.4:
+        # files may carry different observations (another sensor, another quality control): each input's anomaly is its own
+        for j, inp in enumerate(ds["inputs"][1:]):
+            for c in inp["cells"].values():
+                if c.get("obs") is not None and rng.random() < 0.6:
+                    c["obs"] = c["obs"] + 0.25 * (j + 1)
+        ctx.count("cases_with_different_observations")
     clim = ds["clim"]
     ctype = rng.choice(["subtract", "divide"])
     zeros = 0
